@@ -1554,6 +1554,86 @@ func (h *c01Hist) apply(name string) (res []c01Result, ok bool) {
 	panic("c01 harness: unknown op " + name)
 }
 
+// the function of package modeling a harness op calls (only ops that are exactly ONE call of an exported Mesh-returning
+// function of modeling/mesh.go) and the model class of the request the harness sends next to that call
+func c01GoFuncAndClass(name, req string) (fn, cls string) {
+	t := strings.Fields(req)
+	if len(t) == 0 {
+		return "", ""
+	}
+	kind := func() string { // attribute kind 0..3 -> Float1..Float4
+		if len(t) > 1 && len(t[1]) == 1 && t[1][0] >= '0' && t[1][0] <= '3' {
+			return string(rune(t[1][0] + 1))
+		}
+		return "?"
+	}
+	cls = t[0]
+	switch t[0] {
+	case "setdata", "setattr", "copyattr":
+		cls = t[0] + " " + t[1]
+	case "rebuild":
+		cls = "rebuild " + map[string]string{"0": "share", "1": "drop"}[t[3]]
+	}
+	switch name {
+	case "append":
+		fn = "Mesh.Append"
+	case "setindices":
+		fn = "Mesh.SetIndices"
+	case "setmaterials":
+		fn = "Mesh.SetMaterials"
+	case "setmaterial":
+		fn = "Mesh.SetMaterial"
+	case "topointcloud":
+		fn = "Mesh.ToPointCloud"
+	case "clearattrs":
+		fn = "Mesh.ClearAttributeData"
+	case "setdata":
+		fn = "Mesh.SetFloat" + kind() + "Data"
+	case "setattr", "setattr.delete":
+		fn = "Mesh.SetFloat" + kind() + "Attribute"
+	case "modify":
+		fn = "Mesh.ModifyFloat" + kind() + "Attribute"
+	case "modify.parallel":
+		fn = "Mesh.ModifyFloat" + kind() + "AttributeParallelWithPoolSize"
+	case "translate":
+		fn = "Mesh.Translate"
+	case "scale":
+		fn = "Mesh.Scale"
+	case "rotate":
+		fn = "Mesh.Rotate"
+	case "applytrs":
+		fn = "Mesh.ApplyTRS"
+	case "copyattr":
+		fn = "Mesh.CopyFloat" + kind() + "Attribute"
+	case "weld":
+		fn = "Mesh.WeldByFloat3Attribute"
+	// modeling/meshops: the ops that are one direct call of an exported function (not through Mesh.Transform)
+	case "flipwinding":
+		fn = "meshops.FlipTriangleWinding"
+	case "smoothnormals":
+		fn = "meshops.SmoothNormals"
+	case "smoothnormals.implicitweld":
+		fn = "meshops.SmoothNormalsImplicitWeld"
+	case "laplacian":
+		fn = "meshops.LaplacianSmooth"
+	case "normalize":
+		fn = "meshops.NormalizeAttribute3D"
+	case "meshops.scale":
+		fn = "meshops.ScaleAttribute3D"
+	case "meshops.rotate":
+		fn = "meshops.RotateAttribute3D"
+	case "vertexcolorspace":
+		fn = "meshops.VertexColorSpace"
+	case "scalealongnormal":
+		fn = "meshops.ScaleAttributeAlongNormal"
+	case "unweld":
+		fn = "meshops.Unweld"
+	case "crop":
+		fn = "meshops.CropFloat3Attribute"
+	}
+	return fn, cls
+}
+
 func (h *c01Hist) doOp(name string) {
 	h.step++
 	h.lastOp = name
@@ -1570,6 +1650,12 @@ func (h *c01Hist) doOp(name string) {
 			}
 			h.c.Emit("c01.shape", b.String(), h.resultShape(r.mesh))
 			h.c.Note("shape." + strings.SplitN(r.req, " ", 2)[0])
+			// the hand classification, tied: which model class THIS harness sends for which function of package modeling
+			// (answered by the driver from MeshClasses.handClass, the table classification_from_source is about)
+			if fn, cls := c01GoFuncAndClass(name, r.req); fn != "" {
+				h.c.Emit("c01.class", fn, cls)
+				h.c.Note("class." + fn)
+			}
 		}
 		i := h.enter(r.mesh)
 		if r.redo != nil {
